@@ -1785,6 +1785,33 @@ Proof.
   intros d H. unfold run, decrypt_frame. destruct (has_len d 12) eqn:E; [apply has_len_true in E; lia | reflexivity].
 Qed.
 
+(** the PEM block loop terminates because pem.Decode hands back a strictly shorter rest *)
+Lemma pem_loop_total decode :
+  (forall raw c rest, decode raw = Some (c, rest) -> (length rest < length raw)%nat) ->
+  forall fuel raw, (length raw < fuel)%nat ->
+  pem_loop decode fuel raw <> OutOfFuel /\ pem_loop decode fuel raw <> Panic.
+Proof.
+  intros Hd. induction fuel as [|f IH]; intros raw Hl; [lia|]. cbn [pem_loop].
+  destruct (decode raw) as [[c rest]|] eqn:E; [|split; discriminate].
+  destruct c; [|split; discriminate]. apply IH. apply Hd in E. lia.
+Qed.
+Lemma P_pem_loop : forall decode,
+  (forall raw c rest, decode raw = Some (c, rest) -> (length rest < length raw)%nat) ->
+  forall raw, pem_loop decode (S (length raw)) raw <> OutOfFuel /\ pem_loop decode (S (length raw)) raw <> Panic.
+Proof. intros decode Hd raw. apply pem_loop_total; [exact Hd | lia]. Qed.
+Lemma P_pem_loop_needs_progress : exists decode raw, forall fuel, pem_loop decode fuel raw = OutOfFuel.
+Proof.
+  exists (fun r => Some (true, r)), [45]. induction fuel as [|f IH]; [reflexivity | exact IH].
+Qed.
+Lemma ex_pem_decode : exists decode : list Z -> option (bool * list Z),
+  (forall raw c rest, decode raw = Some (c, rest) -> (length rest < length raw)%nat) /\
+  pem_loop decode 4 [1; 1; 0] = Ok true /\ pem_loop decode 3 [1; 1] = Err E_OTHER.
+Proof.
+  exists (fun r => match r with [] => None | x :: t => Some (x =? 1, t) end). split.
+  - intros raw c rest H. destruct raw; [discriminate|]. inversion H; subst. cbn. lia.
+  - split; reflexivity.
+Qed.
+
 (** examples: the hypotheses are satisfiable *)
 Lemma ex_lookup : 32 <= lenZ (repeat 0 24 ++ [2; 1; 0; 0] ++ repeat 0 4) /\
   outcome_of (run (lookup_acm_size (repeat 0 24 ++ [2; 1; 0; 0] ++ repeat 0 4)) (repeat 0 24 ++ [2; 1; 0; 0] ++ repeat 0 4)) = Ok [1032].
